@@ -4,7 +4,7 @@ Module Probe.
 Definition c17_cancel_increment : N := 16%N.
 Definition c17_cw_increment : N := 16%N.
 Definition c17_count_mask : N := 7%N.
-Definition c17_expected_mask_inv : N := 15%N.
+Definition c17_expected_mask_inv : N := 7%N.
 Definition c17_deadlock_flag : N := 8%N.
 Definition c17_id_word_bits : N := 32%N.
 End Probe.
